@@ -2,7 +2,7 @@ r"""
 E2 generator: document corpora for bulk indexing (used by C03).
 
 A corpus specification is plain JSON.  File *content* is not stored line by line (a large file has 120 000 lines) but as a small
-recipe that `doc_line()` expands by integer arithmetic only, so a case stays a pure function of its JSON:
+recipe that `build_file_bytes()` expands by integer arithmetic only, so a case stays a pure function of its JSON:
 
     case["pool"]          list of 1..6 text fragments (ASCII and 2/3/4-byte UTF-8, never '"', '\\', or anything below U+0020)
     file spec             {"docs": n, "meta": bool, "eol": "\n"|"\r\n", "final_newline": bool, "seq": bool,
@@ -97,9 +97,12 @@ def small_corpora(draw, plain_only=False):
 def large_corpora(draw, plain_only=False):
     """one file of 50 001-120 000 lines (so that the offset table has one or two entries), optionally a small companion file"""
     spec = draw(file_specs(st.just(0), allow_meta=not plain_only, allow_ds=False))
+    # mostly numbered lines: in a file of identical lines a seek that is off by a line cannot be told from a correct one
+    spec["seq"] = draw(st.sampled_from([True, True, True, True, False]))
     lines = draw(
         st.one_of(
             st.integers(LARGE_MIN_LINES, LARGE_MAX_LINES),
+            st.integers(100_001, LARGE_MAX_LINES),
             st.integers(100_001, LARGE_MAX_LINES),
             st.sampled_from([50_001, 50_002, 99_999, 100_000, 100_001, 100_002, 119_999, 120_000]),
         )
